@@ -17,10 +17,13 @@ def c30(tier, seed):
     c.distinct_names = ['schedule', 'stress_config']
     c.extra['plans_enumerated_completely_within_preemption_bound'] = c.stats.get('dfs_plans_enumerated_completely', 0)
     c.rule = ('(a) stress: 1..8 producers x 1..8 consumers on real threads, 200..120000 unique elements, seeded spin delays/yields at the hook '
-              'points, on uMPMC_Ptr_Queue and both ff_unbounded_queue wrappers; (b) controlled schedules of the REAL push/pop code: every thread '
+              'points, on uMPMC_Ptr_Queue and both ff_unbounded_queue wrappers; half of the runs on the bare queue build it from 1-4 sub-queues '
+              'of 2-16 slots, so that producers switch segments and consumers recycle them through the segment pool all the time (hook H3 '
+              'adds delay points after every inner buffer operation); (b) controlled schedules of the REAL push/pop code: every thread '
               'parks at every hook point (loop head, after the ticket CAS, after the sub-buffer store/load, after the sequence store) and at every '
               'operation boundary; a scheduler picks the next thread - seeded random priorities with change points, and stateless depth-first '
-              'enumeration with a pre-emption bound for 2-3 producers x 1-2 pushes x 1-2 consumers; oracle from the tickets reported by the hooks: '
+              'enumeration with a pre-emption bound for 2-3 producers x 1-2 pushes x 1-2 consumers; 35% of the random-schedule cases use 1-2 '
+              'sub-queues of 2-3 slots with 3-7 pushes per producer and park at the H3 points too (segment switch, pool cache hand-over); oracle from the tickets reported by the hooks: '
               'push tickets 0..N-1 each once, a pop holding ticket t returns the element pushed with ticket t, every element popped exactly once '
               'after a final drain, producer order kept, "empty" only if a possible head position was not yet published; evaluations = elements '
               '+ schedules; distinct = distinct schedules (hash of the thread/point sequence) + stress configurations')
